@@ -28,6 +28,7 @@ from .e_window import no_unknowns as _no_unknowns
           'verdicts cover every composition, every N and every input stream.')
 def c01(F, R, tier):
     e2_protocol.run_c01(F, R)
+    _no_unknowns(F, R, [v.name for v in F.views if v.children_fields()])
 
 
 from . import e_c14
@@ -135,6 +136,7 @@ from . import e_typed_props
           'transform: shift-coefficient analysis of the values reported from the initial state (enumerated N). ' + PARTIAL)
 def c12(F, R, tier):
     e_typed_props.run_c12(F, R, tier)
+    _no_unknowns(F, R, list(_spec.DEGREE0) + list(_spec.DEGREE1))
 
 
 @register('C10', 'other',
@@ -177,6 +179,7 @@ from . import e_ready
           'view code is guarded on its path (interval/sign analysis with integer lower bounds) or is in a reviewed exception table. ' + PARTIAL)
 def c08(F, R, tier):
     e_ready.run_c08(F, R, tier)
+    _no_unknowns(F, R, [v.name for v in F.views])
 
 
 from . import e_rolling
